@@ -59,6 +59,11 @@ def do_case(case):
         cfgd = registry.random_cfg(rng, ('WS',), 0.04)
     else:
         cfgd = registry.random_cfg(rng, ('WS', 'MOD'), 0.05)
+    if lang in ('C', 'CPP', 'OC') and rng.random() < 0.25:
+        # options whose effect depends on the file's own name: an include block that holds the file's own header, sorted with the
+        # own header first - however the file is named on the command line (bare, './', absolute, with a directory)
+        src = b'#include "zeta.h"\n#include "input.h"\n#include <vector>\n#include "alpha.h"\n' + src
+        cfgd.update({'mod_sort_include': 'true', 'mod_sort_incl_import_prioritize_filename': 'true'})
     cfg = registry.cfg_text(cfgd)
     fails = []
     nmodes = 0
@@ -106,7 +111,7 @@ def do_case(case):
         base = ['-c', '../c.cfg']
         # ---- delivery / output modes, each with a seeded subset of observers
         modes = ['stdin_assume', 'stdin_l', 'stdin_assume_l', 'f_ext', 'f_o', 'pos_default', 'pos_suffix', 'pos_prefix', 'F_list', 'F_stdin',
-                 'replace', 'no_backup', 'f_o_same', 'pos_l']
+                 'replace', 'no_backup', 'f_o_same', 'pos_l', 'f_dotslash', 'f_abs', 'pos_parent_dir']
         for mode in modes:
             obs = set(o for o in OBSERVERS if rng.random() < 0.3)
             if mode in ('f_ext',) and rng.random() < 0.5:
@@ -128,6 +133,19 @@ def do_case(case):
             elif mode == 'f_ext':
                 r = run.run(base + [rng.choice(['-f', '--file']), name] + oa, cwd=d)
                 judge(mode, r.out, r, created, d, {name}, obs)
+            elif mode == 'f_dotslash':
+                r = run.run(base + ['-f', './' + name] + oa, cwd=d)
+                judge(mode, r.out, r, created, d, {name}, obs)
+            elif mode == 'f_abs':
+                r = run.run(base + ['-f', os.path.join(d, name)] + oa, cwd=d)
+                judge(mode, r.out, r, created, d, {name}, obs)
+            elif mode == 'pos_parent_dir':
+                # run from the parent directory: the file is named with a directory part, the output goes next to it
+                rel_ = os.path.join(os.path.basename(d), name)
+                r = run.run(['-c', 'c.cfg'] + oa + [rel_], cwd=top)
+                t = name + '.uncrustify'
+                got = run.read(os.path.join(d, t)) if os.path.exists(os.path.join(d, t)) else b'<missing>'
+                judge(mode, got, r, [], d, {name, t}, obs)
             elif mode == 'f_o':
                 r = run.run(base + ['-l', lang, '-f', name, '-o', 'out.txt'] + oa, cwd=d)
                 got = run.read(os.path.join(d, 'out.txt')) if os.path.exists(os.path.join(d, 'out.txt')) else b'<missing>'
